@@ -270,6 +270,11 @@ func (cw *chunkWriter) writeHeader(p []byte) {
 	cw.wroteHeader = true
 
 	w := cw.res
+
+	// from here on the final response owns the connection writer
+	w.continueMu.Lock()
+	w.continueForbidden = true
+	w.continueMu.Unlock()
 	isHEAD := w.req.Method == "HEAD"
 
 	// header is written out to w.conn.buf below. Depending on the
